@@ -63,7 +63,7 @@ def draw_request(rng, mesh, thick, fixed=None):
     if wm == "ratio":
         ratio = 2.0 ** float(rng.uniform(-6, 4))
         req["dx"] = ratio * typical
-        req["dy"] = req["dx"] * float(rng.choice([1.0, 1.0, 0.5, 1.7])) if rng.random() < 0.6 else None
+        req["dy"] = req["dx"] * float(rng.choice([1.0, 0.5, 1.7, 0.15, 3.0, 6.0])) if rng.random() < 0.6 else None
     elif wm == "large":
         req["dx"] = float(rng.uniform(1.0, 2.5))
         req["dy"] = None
